@@ -36,6 +36,21 @@ pub(super) fn verify_bytecode(func: &Function) -> Result<(), String> {
         ));
     }
 
+    // instruction starts of the linear layout: the CallGlobal variants own the two cache
+    // words that follow them.  A jump may only land on a start or on the end of the stream,
+    // otherwise the dispatch loop would decode a cache word as an instruction.
+    let mut starts = vec![false; bytecode.len() + 1];
+    let mut pos = 0;
+    while pos < bytecode.len() {
+        starts[pos] = true;
+        let op = (bytecode[pos] >> 24) as u8;
+        let has_cache_words = op == OpCode::CallGlobal as u8
+            || op == OpCode::CallGlobalMono as u8
+            || op == OpCode::CallGlobalNative as u8;
+        pos += if has_cache_words { 3 } else { 1 };
+    }
+    starts[bytecode.len()] = true;
+
     let mut ip = 0;
     while ip < bytecode.len() {
         let instr = bytecode[ip];
@@ -62,7 +77,7 @@ pub(super) fn verify_bytecode(func: &Function) -> Result<(), String> {
             ip += 1;
             continue;
         }
-        if control::verify(opcode, ip, a, b, c, imm, num_regs, bytecode.len())? {
+        if control::verify(opcode, ip, a, b, c, imm, num_regs, bytecode.len(), &starts)? {
             ip += 1;
             continue;
         }
@@ -121,9 +136,10 @@ pub(super) fn verify_jump(
     ip: usize,
     imm: i16,
     bytecode_len: usize,
+    starts: &[bool],
     op: &str,
 ) -> Result<(), String> {
-    check_jump(ip, imm, bytecode_len, op)
+    check_jump(ip, imm, bytecode_len, starts, op)
 }
 
 pub(super) fn verify_reg(reg: usize, num_regs: usize, op: &str) -> Result<(), String> {
